@@ -1,5 +1,6 @@
 """Family F-model (C20): generated full Workflow values -> YAML/JSON round trip, deploy/version/events,
 duplicate id rejection, unknown model start, tree listing against an independently computed one."""
+import collections
 import json
 import re
 
@@ -221,7 +222,91 @@ def parse_tree(t):
 class ModelFamily:
     name = 'model'
 
+    def gen_redeploy(self, rng, idx, opts):
+        """model A deployed and started, removed, a DIFFERENT model B deployed under the same id and started: the second
+        process runs B's tree (every declared step and act once, in order), also across a reload from the store, and
+        the version starts again"""
+        mid = 'mr%d' % rng.randint(0, 99)
+        noids = rng.random() < 0.5
+
+        def simple(p, nsteps):
+            steps = []
+            for i in range(nsteps):
+                st = {'acts': [{'uses': 'acts.core.irq', 'key': f'{p}k{i}_{j}'} for j in range(rng.randint(1, 2))]}
+                if not noids:
+                    st['id'] = f'{p}s{i}'
+                    for j, a in enumerate(st['acts']):
+                        a['id'] = f'{p}a{i}_{j}'
+                steps.append(st)
+            return {'id': mid, 'name': p, 'steps': steps}
+        A, B = simple('za', rng.randint(1, 3)), simple('zb', rng.randint(1, 3))
+        nda = rng.randint(1, 2)
+        ops = [{'op': 'deploy', 'yaml': json.dumps(A)} for _ in range(nda)]
+        ops += [{'op': 'start', 'mid': mid, 'vars': {'pid': 'pa'}}, {'op': 'quiesce'}, {'op': 'model_rm', 'id': mid},
+                {'op': 'start', 'mid': mid, 'vars': {'pid': 'px'}},                         # removed: unknown again
+                {'op': 'deploy', 'yaml': json.dumps(B)}, {'op': 'model_get', 'id': mid, 'fmt': 'json'},
+                {'op': 'start', 'mid': mid, 'vars': {'pid': 'pb'}}, {'op': 'quiesce'}]
+        if rng.random() < 0.5:
+            ops.append({'op': 'evict', 'pid': 'pb'})
+        ops += [{'op': 'run'}, {'op': 'snapshot', 'level': 'live'}]
+        store = rng.choice(['mem', 'mem', 'sqlite'])
+        sc = {'id': '', 'family': 'model', 'sched': 'cur-redeploy', 'runtime': {'flavor': 'current'}, 'engine': {'store': store, 'keep_processes': True}, 'models': [],
+              'responder': {'mode': 'quiescent', 'order': 'fifo', 'rules': [{'match': {'uses': 'acts.core.irq', 'pid': 'pb'}, 'action': 'next', 'times': 100}]}, 'ops': ops}
+        if store == 'sqlite':
+            sc['watchdog_ms'] = 60000
+        return {'scenarios': [sc], 'meta': {'sub': 'redeploy', 'A': A, 'B': B, 'nda': nda, 'mid': mid}, 'digest': digest([A, B, nda, store]), 'nontrivial': True}
+
+    def judge_redeploy(self, c, opts, obs):
+        out = []
+        h, sc, m = c['hist'][0], c['scenarios'][0], c['meta']
+        sid = sc['id']
+        A, B, nda = m['A'], m['B'], m['nda']
+        byop = collections.defaultdict(list)
+        for o in h.ops:
+            byop[sc['ops'][o['i']]['op']].append((sc['ops'][o['i']], o['res']))
+        obs['c20.redeploys'] += 1
+        starts = {op['vars']['pid']: r for op, r in byop['start']}
+        if not all(r['ok'] for _, r in byop['deploy']) or not starts['pa']['ok']:
+            out.append(V('C20', 'valid-model-rejected', 'redeploy', f"deploy / first start failed: {[r.get('err') for _, r in byop['deploy']]} {starts['pa'].get('err')}", scenario=sid))
+            return out
+        if starts['px']['ok']:
+            out.append(V('C20', 'unknown-model-started', 'removed', 'start of a removed model id succeeded', scenario=sid))
+        gj = byop['model_get'][0][1]
+        if gj.get('ok'):
+            if gj['ver'] != 1:
+                out.append(V('C20', 'version', f"after-remove:1->{gj['ver']}", f"first deploy after a removal has version {gj['ver']}", scenario=sid))
+            try:
+                stored = json.loads(gj['data'])
+            except Exception:
+                stored = None
+            if stored is None and isinstance(gj.get('data'), str):
+                # the stored text is YAML: the name and the top-level list items (this model has no other list than steps)
+                txt = gj['data']
+                nm = re.search(r'^name: (.*)$', txt, re.M)
+                stored = {'name': nm.group(1).strip() if nm else None, 'steps': re.findall(r'^- ', txt, re.M)}
+            if stored is None:
+                obs['c20.redeploy-stored-model-unreadable'] += 1
+            elif stored.get('name') != 'zb' or len(stored.get('steps') or []) != len(B['steps']):
+                out.append(V('C20', 'stored-model-differs', 'after-remove', f"the model stored after remove + deploy is not the deployed one (name {stored.get('name')}, {len(stored.get('steps') or [])} steps)", scenario=sid))
+        if not starts['pb']['ok']:
+            out.append(V('C20', 'valid-model-rejected', 'redeploy-start', f"start of the re-deployed model failed: {starts['pb'].get('err')}", scenario=sid))
+            return out
+        # pb runs B's tree: its acts (by key), each exactly once, in declaration order; nothing of A
+        want = [a['key'] for st in B['steps'] for a in st['acts']]
+        got = [d['key'] for d in h.delivers if d['pid'] == 'pb' and d['type'] == 'act' and d['state'] == 'created']
+        evicted = any(op['op'] == 'evict' for op in sc['ops'])
+        tag = ('noids' if 'id' not in B['steps'][0] else 'ids') + (':reloaded' if evicted else '')
+        if got != want:
+            foreign = [k for k in got if k.startswith('za')]
+            out.append(V('C20', 'started-process-runs-another-tree', f"{'stale-model' if foreign else 'missing' if len(got) < len(want) else 'other'}:{tag}", f"process started from the re-deployed model executed acts {got}, the deployed model declares {want}", scenario=sid))
+        done = [e for e in h.cbs if e['pid'] == 'pb' and e['what'] == 'complete']
+        if got == want and not done:
+            out.append(V('C20', 'started-process-did-not-complete', tag, f"process of the re-deployed model did not complete", scenario=sid))
+        return out
+
     def gen(self, rng, idx, opts):
+        if rng.random() < opts.get('redeploy', 0.15):
+            return self.gen_redeploy(rng, idx, opts)
         g = G(rng)
         w = g.wf()
         dup = None
@@ -244,6 +329,8 @@ class ModelFamily:
     def judge(self, c, opts, obs):
         out = []
         h, sc, m = c['hist'][0], c['scenarios'][0], c['meta']
+        if m.get('sub') == 'redeploy':
+            return self.judge_redeploy(c, opts, obs)
         w, dup, nd = m['wf'], m['dup'], m['nd']
         res = [o['res'] for o in h.ops]
         rt = res[0]
